@@ -96,8 +96,12 @@ def syncOp (s : St) (fresh : Bool) (b0 : State) (w : Nat) (rest : List String) :
     let c := s.blocks.take upTo
     if fresh then checkWF s.scopes noInvalid c && checkLA w s.scopes c
     else s.hyp && checkWF s.scopes noInvalid c && checkLAFrom w s.scopes s.done c
-  let finish := fun (st st' : State) =>
-    if persistEq s st st' then
+  -- `strict`: the persistent result must not depend on where the run was cut (self check of the model).  Not demanded
+  -- of a re-scan of committed blocks outside the theorems' hypotheses (a payment beyond the window missed by the first
+  -- pass is found by the second, but `addRelevantTx` skips the already recorded transaction: the output is watched in
+  -- memory only, so a Resurrect in between makes a difference — the real wallet agrees with the uncut model run)
+  let finish := fun (strict : Bool) (st st' : State) =>
+    if !strict || persistEq s st st' then
       let hyp := hypUpTo tip
       ({ s with rs := some st, done := tip, hyp := hyp, stopped := false }, showState s st ++ s!" hyp={if hyp then 1 else 0}")
     else (s, "model-cuts-differ")
@@ -111,7 +115,7 @@ def syncOp (s : St) (fresh : Bool) (b0 : State) (w : Nat) (rest : List String) :
     else
       -- lock / unlock timeout: syncWithChain fails, waitForSync retries it in-process (Resurrect from the database)
       let again := if fresh then s.blocks else new.drop n
-      finish (run st1 again (fun _ => false)) (run st1' again (fun _ => true))
+      finish (!(fresh && n > 0) || hypUpTo tip) (run st1 again (fun _ => false)) (run st1' again (fun _ => true))
   else
   match (if halt.isSome then recoverChainFail noInvalid s.batch (b0.calls + failat) (new.length + 1) (resurrect noInvalid b0) new 0 else none) with
   | some (st1, n) =>
@@ -120,7 +124,7 @@ def syncOp (s : St) (fresh : Bool) (b0 : State) (w : Nat) (rest : List String) :
   | none =>
     let st := run b0 new (fun _ => false)
     if failat != 0 && failat ≤ st.calls - b0.calls then ({ s with tainted := true }, "retried-after-failure")
-    else finish st (run b0 new (fun _ => true))
+    else finish true st (run b0 new (fun _ => true))
 
 def step (s : St) (line : String) : St × String :=
   let t := words line
